@@ -502,13 +502,20 @@ fn variant_destruct_block(input: &Struct, ctx: &ImplContext) -> TokenStream {
     };
 
     if ctx.kind.is_from() {
+        let bound: Vec<String> = idents.iter().map(|x| x.to_string()).collect();
         idents.extend(input.attrs.ghosts_attr(&ctx.struct_attr.ty, &ctx.kind).into_iter().flat_map(|x| &x.ghost_data).map(|x| {
             let ghost_ident = x.ghost_ident.get_ident();
             let ident = match ghost_ident {
                 Named(ident) => ident.to_token_stream(),
                 Unnamed(index) => format_ident!("f{}", index.index).to_token_stream(),
             };
-            quote!(#ident ,)
+            // The counterpart's member behind a ghost is not read here. Its binding is named after its position in the
+            // counterpart, mapped members are named after their position in this variant: when the two clash it stays unbound.
+            match (bound.contains(&quote!(#ident ,).to_string()), type_hint) {
+                (false, _) => quote!(#ident ,),
+                (true, TypeHint::Struct) => quote!(#ident: _ ,),
+                (true, _) => quote!(_ ,),
+            }
         }));
     }
 
